@@ -6,6 +6,7 @@
 #                                            properties (default: all registered checks) against that worktree
 export GOFLAGS=-mod=mod GOPROXY=off GOSUMDB=off GOTOOLCHAIN=local
 cmd=$1; shift
+ROOT=$(cd "$(dirname "$0")/.." && pwd)
 pkgdir() { # package name -> directory
   case "$1" in
     abi|verify|validate|pcs|rtmr|client) echo "$1" ;;
@@ -52,12 +53,12 @@ confirm)
 detect)
   patch=$(realpath "$1"); shift
   ids=("$@")
-  [ ${#ids[@]} -gt 0 ] || ids=($(python3 -c "import json;print(' '.join(c['property_id'] for c in json.load(open('/verif/MANIFEST.json'))['checks']))"))
+  [ ${#ids[@]} -gt 0 ] || ids=($(python3 -c "import json;print(' '.join(c['property_id'] for c in json.load(open('$ROOT/MANIFEST.json'))['checks']))"))
   wt=/tmp/mdet.$$
   git -C /repo worktree add -q --detach "$wt" HEAD || exit 2
   trap 'git -C /repo worktree remove --force "$wt" >/dev/null 2>&1' EXIT
   git -C "$wt" apply "$patch" || { echo "patch does not apply"; exit 2; }
-  cd /verif || exit 2
+  cd "$ROOT" || exit 2
   for id in "${ids[@]}"; do
     out=$(VERIF_REPO="$wt" VERIF_EVIDENCE_SCRATCH=1 ./check "$id" ${VERIF_TIER:-quick} 2>&1); rc=$?
     echo "$id rc=$rc $(echo "$out" | grep -E -m1 'VIOLATION|BROKEN' | cut -c1-260)"
